@@ -14,7 +14,9 @@ LEVEL = "exploration"
 RULE = ("Seeded histories on one SNMPv3 client (3-25 steps): request (get, multiget, getnext, set, bulkget, walk), time passes "
         "(1 s .. 149 s, 150-151 s, 10 min, 1 h, 1 d, 30 d of virtual time), agent reboot (boots+1, time restarts - the crash/"
         "restart of the only node with durable state), administrative forward step of the agent clock, slow agent; all three "
-        "security levels; separately discovery-reply faults (foreign msgID, no bindings, wrong PDU type). Oracle: first datagram "
+        "security levels; separately faults of the FIRST discovery exchange (foreign msgID, no bindings, wrong PDU type, reply lost); "
+        "after a lost or refused reply the history goes on: the next request must start with a discovery probe again and from "
+        "then on everything holds as for a fresh client. Oracle: first datagram "
         "is the RFC 3414 section 4 probe, later requests carry the discovered engine id (security and default context engine "
         "id); a foreign-msgID reply is refused and nothing with credentials follows; in a history without discontinuity the "
         "agent never answers notInTimeWindow and every request returns the model result; after a reboot/step requests may fail "
@@ -28,7 +30,7 @@ ASSUMPTIONS = [
     "on purpose); a request is required to succeed only if the drift accumulated since the client last heard from the agent "
     "is below 140 s - beyond that no client can be in time and bounded recovery is required instead",
 ]
-PROBES = ["passes_150s", "passes_days", "reboot", "clock_step", "slow_agent", "recovered_after_discontinuity",
+PROBES = ["rediscovery_after_failed_discovery", "disco_lost", "passes_150s", "passes_days", "reboot", "clock_step", "slow_agent", "recovered_after_discontinuity",
           "failed_right_after_discontinuity", "disco_foreign_msgid", "disco_no_bindings", "disco_wrong_pdu", "level_auth",
           "level_priv", "configured_context_engine", "drift_within_window", "drift_beyond_window", "slow_agent_clock",
           "fast_agent_clock", "discovery_without_timing", "old_response_replayed"]
@@ -36,7 +38,7 @@ shrink_lists = [("steps",)]
 BASE = (1, 3, 6, 1, 2, 1, 7)
 DELTAS = [1, 30, 149, 150, 151, 600, 3600, 86400, 30 * 86400]
 OPS = ["get", "get", "multiget", "getnext", "set", "bulkget", "walk"]
-DISCO_FAULTS = ["foreign_msgid", "no_bindings", "wrong_pdu"]
+DISCO_FAULTS = ["foreign_msgid", "no_bindings", "wrong_pdu", "lost", "lost", "foreign_msgid"]
 
 
 def total(tier: str) -> int:
@@ -117,11 +119,15 @@ def execute(plan: dict) -> dict:
     slow = {"s": 0}
     agent.delay_for = lambda req: 0 if req.get("discovery") else slow["s"] * 1024
     fault = plan.get("disco_fault")
+    fault_state = {"fired": False}
+    if fault == "lost":
+        w.net.explicit[("a2c", 0)] = [("drop", 0)]     # the reply to the first probe never arrives
 
     def hook_v3(req: dict, f: dict) -> dict:
         if req.get("discovery") and plan.get("disco_hides_timing") and not fault:
             return dict(f, boots=0, time=0)
-        if req.get("discovery") and fault:
+        if req.get("discovery") and fault and not fault_state["fired"]:
+            fault_state["fired"] = True                  # only the first discovery exchange is disturbed
             if fault == "foreign_msgid":
                 return dict(f, msg_id=(f["msg_id"] + 17) % (2**31))
             if fault == "no_bindings":
@@ -165,6 +171,7 @@ def execute(plan: dict) -> dict:
     # a discontinuity happened (or the agent did not disclose its clock at discovery) and the client has not yet
     # received an authenticated message from the agent since
     pending = bool(plan.get("disco_hides_timing")) and level > 0 and not fault
+    rediscover = fault_done = False
     last_heard = 0.0         # virtual instant of the last message the client received from the agent
     nreq = 0
     time_between = False
@@ -249,14 +256,26 @@ def execute(plan: dict) -> dict:
                 fail("no-discovery-first", "the first datagram of the client is not the discovery probe")
             elif first["msg"]["flags"] != 4 or first["msg"]["scoped"] is None or first["msg"]["scoped"]["pdu"]["vbs"]:
                 fail("discovery-probe", "the discovery probe is not noAuthNoPriv/reportable with an empty binding list")
-        if fault:
+        if rediscover:
+            # the first discovery exchange failed (reply lost or refused): no request has been made yet, so this one has
+            # to start with a discovery probe again - and from here on everything holds as for a fresh client
+            rediscover = False
+            probes["rediscovery_after_failed_discovery"] = 1
+            first = new[0] if new else None
+            if first is None or not first.get("discovery"):
+                fail("no-discovery-first", "after a failed discovery exchange the next request did not start with a discovery probe")
+        if fault and not fault_done:
+            fault_done = True
             probes["disco_" + fault] = 1
-            if fault == "foreign_msgid" or fault == "no_bindings":
+            if fault in ("foreign_msgid", "no_bindings", "lost"):
                 if exc is None:
                     fail("bad-discovery-accepted", "discovery reply with %s was accepted" % fault)
                 if any(not r.get("discovery") for r in new):
-                    fail("request-after-bad-discovery", "a request with credentials followed the refused discovery reply")
-            break  # the history after a refused discovery is not part of the property
+                    fail("request-after-bad-discovery", "a request with credentials followed the failed discovery exchange")
+            if fault in ("foreign_msgid", "lost"):
+                rediscover = True
+                continue
+            break  # a reply without bindings / of the wrong type may or may not be taken as discovery: history not judged
         for r in new:
             if r.get("discovery") or r["msg"] is None or r["msg"].get("sec") is None:
                 continue
